@@ -329,6 +329,25 @@ Fixpoint run (ts : tsinfo) (s : state) (ops : list op) : state * list obs :=
   | o :: r => let '(s1, ob) := step ts s o in let '(s2, obs) := run ts s1 r in (s2, ob :: obs)
   end.
 
+(* The TypeSystem is an object of its own, shared by every handle and consulted at every call (Type.descendants in
+   _get_feature_structures, contains_type in add are evaluated when the call runs, nothing is remembered per handle):
+   a history may declare types between operations.  TypeSystem.create_type(name, supertypeName = parent): ValueError
+   when the name exists; otherwise the type is contained from now on and is a DocumentAnnotation descendant iff its
+   parent is one (the parent is a declared type). *)
+Inductive ev := EOp (o : op) | EDeclare (name parent : tname).
+Definition declare (name parent : tname) (ts : tsinfo) : tsinfo :=
+  mkTs (ts_types ts ++ [name]) (if memb parent (ts_family ts) then ts_family ts ++ [name] else ts_family ts).
+Definition step_ev (ts : tsinfo) (s : state) (e : ev) : tsinfo * state * obs :=
+  match e with
+  | EOp o => let '(s', ob) := step ts s o in (ts, s', ob)
+  | EDeclare n p => if memb n (ts_types ts) then (ts, s, ObErr EValue) else (declare n p ts, s, ObUnit)
+  end.
+Fixpoint run_ev (ts : tsinfo) (s : state) (evs : list ev) : tsinfo * state * list obs :=
+  match evs with
+  | [] => (ts, s, [])
+  | e :: r => let '(ts1, s1, ob) := step_ev ts s e in let '(ts2, s2, obs) := run_ev ts1 s1 r in (ts2, s2, ob :: obs)
+  end.
+
 (* Cas(typesystem, lenient, sofa_string, sofa_mime, document_language): the initial view, handle 0, then the
    constructor's own use of the setters (sofa_mime only together with sofa_string, default text/plain) *)
 Record ctor := mkCtor { k_lenient : bool; k_text : option text; k_mime : option string; k_lang : option string }.
